@@ -1549,6 +1549,16 @@ class WcParse(Generic[AnyStr]):
                 c = '/'
                 while c == '/':
                     c = next(i)
+                    if c == '\\':
+                        # An escaped separator is a separator as well
+                        index = i.index
+                        try:
+                            if next(i) == '/':
+                                c = '/'
+                        except StopIteration:
+                            pass
+                        if c != '/':
+                            i.rewind(i.index - index)
                 i.rewind(1)
         except StopIteration:
             pass
